@@ -29,6 +29,11 @@ MB = {"ais", "threat_encounter", "selected_altitude", "target_altitude_source", 
       "track_angle_rate", "grspeed", "true_airspeed", "bds_5_0_timestamp", "track_source", "track_timestamp", "heading",
       "indicated_airspeed", "mach_number", "vrate", "vrate_source", "heading_source", "heading_timestamp", "capability",
       "temperature", "wind", "humidity", "turbulence", "pressure"}
+REG = {"bds17": {"capability"}, "bds20": {"ais"}, "bds30": {"threat_encounter"},
+       "bds40": {"selected_altitude", "target_altitude_source", "barometric_pressure_setting"},
+       "bds50": {"roll_angle", "track", "track_angle_rate", "grspeed", "true_airspeed", "bds_5_0_timestamp", "track_source", "track_timestamp"},
+       "bds60": {"heading", "indicated_airspeed", "mach_number", "vrate", "vrate_source", "heading_source", "heading_timestamp"}}
+METEO = {"temperature", "wind", "humidity", "turbulence", "pressure"}
 # cross-field derivations the decoder is allowed to make (field -> previous values it may read)
 DERIVED = {"altitude_gnss": {"altitude"}, "lat": {"cpr_lat", "cpr_lon"}, "lon": {"cpr_lat", "cpr_lon"},
            "distance_from_observer": {"cpr_lat", "cpr_lon", "lat", "lon"}, "position_timestamp": {"timestamp"},
@@ -59,6 +64,15 @@ def allowed(r):
         a |= {"capability"}                            # CA field of the squitter (recorded on the -U path only)
     if df in (20, 21):
         a |= MB                                        # Comm-B registers (gated, C10)
+        # where the context pins the register, only that register's parameters may change
+        if "prec" in tags:
+            win = [t for t in tags if ">" in t][0].split(">")[0]
+            a = (a - MB) | REG[win]
+        elif "valid" in tags and not r.ctx.get("R"):
+            rn = [t for t in tags if t in REG][0]
+            # only this register is advertised; 2,0/3,0 go by selector and the meteorological registers need no advertisement
+            # (and the same bits may also form a valid 1,7 report, which takes precedence)
+            a = (a - MB) | REG[rn] | METEO | REG["bds20"] | REG["bds30"] | REG["bds17"]
     if df in (17, 18):
         if tc is None:
             a |= {"ais", "category", "altitude", "altitude_source", "surveillance_status", "ground_movement", "track", "track_source",
